@@ -43,6 +43,12 @@ TrTopo == /\ IsOp("topo")
           /\ Clause("atoms_in_file_order", [i \in 1..Len(Ev[l].atoms) |-> <<Ev[l].atoms[i][1], Ev[l].atoms[i][2], Ev[l].atoms[i][3]>>] = AtomsOf(res))
           /\ Clause("bond_graph", PairSet(Ev[l].bonds) = BondSet(res))
           /\ Clause("bonds_symmetric", Ev[l].symmetric)
+(* the same reading of the file the library wrote back: "and therefore the same molecule name, atoms and bonds" *)
+TrTopo2 == /\ IsOp("topo2")
+           /\ Clause("rewritten_molecule_name", Ev[l].name = MolName(res))
+           /\ Clause("rewritten_atoms_in_file_order", [i \in 1..Len(Ev[l].atoms) |-> <<Ev[l].atoms[i][1], Ev[l].atoms[i][2], Ev[l].atoms[i][3]>>] = AtomsOf(res))
+           /\ Clause("rewritten_bond_graph", PairSet(Ev[l].bonds) = BondSet(res))
+           /\ Clause("rewritten_bonds_symmetric", Ev[l].symmetric)
 (* graph traces: the bond list is part of the configuration *)
 TrGraph == /\ IsOp("graph")
            /\ Clause("atom_count", Ev[l].natoms = Cfg.n)
@@ -61,7 +67,9 @@ CertOK(e) == LET B == Bonds IN
                       /\ e.depth[e.parent[i] + 1] = e.depth[i] - 1
                       /\ e.label[e.parent[i] + 1] = e.label[i]
 TrConn == /\ IsOp("conn")
-          /\ Clause("certificate_valid_MACHINERY", CertOK(Ev[l]))
+          \* the harness computes the certificate from the bonds the implementation returned; when those are not the
+          \* file's bonds (clause bond_graph of the event before) there is nothing to certify
+          /\ Clause("certificate_valid_MACHINERY", (PairSet(Ev[l].bonds) = Bonds /\ Ev[l].natoms = NAtoms) => CertOK(Ev[l]))
           /\ Clause("connectivity_test_answers", Ev[l].exc = "")
           /\ Clause("connected_iff_one_component",
                     Ev[l].value = (\A i \in 1..NAtoms : Ev[l].label[i] = Ev[l].label[1]))
@@ -69,7 +77,7 @@ TrCopy == /\ IsOp("copy")
           /\ Clause("copy_equal", Ev[l].equal)
           /\ Clause("copy_independent", Ev[l].independent)
 
-TraceNext == TrRead \/ TrRewrite \/ TrRewrite2 \/ TrTopo \/ TrGraph \/ TrConn \/ TrCopy
+TraceNext == TrRead \/ TrRewrite \/ TrRewrite2 \/ TrTopo \/ TrTopo2 \/ TrGraph \/ TrConn \/ TrCopy
 TraceSpec == TraceInit /\ [][TraceNext]_<<vars, tid, l>>
 Accepted == (l = Len(Ev) + 1) => PrintT(<<"ACC", Traces[tid].tid>>)
 =============================================================================
